@@ -478,8 +478,14 @@ class Formula:
     def _getcoefs(self):
         if not hasattr(self, '_coefs'):
             self._coefs = {}
+            # One coefficient per term *position*: a term that occurs more
+            # than once (e.g. after adding formulae that share a term) keeps
+            # one column per occurrence in the design.
+            self._betas = []
             for term in self.terms:
-                self._coefs.setdefault(term, Beta("%s%d" % (self.char, self._counter), term))
+                beta = Beta("%s%d" % (self.char, self._counter), term)
+                self._betas.append(beta)
+                self._coefs.setdefault(term, beta)
                 self._counter += 1
         return self._coefs
     coefs = property(_getcoefs, doc='Coefficients in the linear regression formula.')
@@ -501,8 +507,8 @@ class Formula:
         Expression for the mean, expressed as a linear combination of
         terms, each with dummy variables in front.
         """
-        b = [self.coefs[term] for term in self.terms]
-        return np.sum(np.array(b)*self.terms)
+        self.coefs  # make sure the coefficients exist
+        return np.sum(np.array(self._betas)*self.terms)
     mean = property(_getmean, doc="Expression for the mean, expressed "
                     "as a linear combination of terms, each with dummy "
                     "variables in front.")
